@@ -122,9 +122,11 @@ def record(rc, faults=None, order="fifo", rng=None, script=None, silence_from=No
         hang = str(h)
     payload_ok = all(o["payload_ok"] for o in rig.cout) and all(i["ok"] for i in rig.sind)
     frames = [rig.frame_rec(f) for f in rig.wire]
+    first_cr = next(({k: f[3][k] for k in ("sa", "maxresp", "maxsegs", "id")} for f in rig.wire if f[3]["k"] == "CR"), None)
     return dict(cfg=rc, faults=faults or {}, applied=dict(rig.applied), order=order, evs=[clean_ev(e) for e in evs], hang=hang, stopped=stopped,
                 payload_ok=payload_ok, frames=frames, errors=list(rig.errors), nq=rig.nq, nr=rig.nr,
-                outcomes=[o["k"] for o in rig.cout], script=script, silence_from=silence_from)
+                outcomes=[o["k"] for o in rig.cout], script=script, silence_from=silence_from, first_cr=first_cr,
+                served=bool(rig.sind))
 
 
 # ---- validation -------------------------------------------------------------------------------------------
